@@ -23,7 +23,9 @@ def eval_case(case):
         elif name == "backward":
             # helper tasks of considering_due_time are not in the dump; entries are compared for the real tasks
             out += O.c08_entries(S, _strip(rec, S.nt), reversed_log=bool(rec["op"].get("revlog", True)))
-    return {"violations": out, "sig": simcheck.behaviour_sig(S, trace) + (tuple(r["op"]["op"] for r in trace),),
+    from .. import modelrun
+    return {"violations": out, "disagreements": modelrun.compare(case, trace, modelrun.FULL),
+            "sig": simcheck.behaviour_sig(S, trace) + (tuple(r["op"]["op"] for r in trace),),
             "hist": simcheck.base_hist(S, trace), "nontrivial": any((r.get("dump") or {}).get("time", 0) >= 2 for r in trace),
             "summary": {"times": [r["dump"]["time"] if r.get("dump") else None for r in trace]}}
 
